@@ -98,6 +98,13 @@ def run_history(ctx: Ctx, mats, m, k, hist, max_norm):
             if nrm > max_norm * (1 + 1e-9):
                 ctx.violation(f"|J^T alpha| = {nrm} exceeds max_norm = {max_norm} on call #{ci}", {**rp, "call": ci})
                 return False
+            # the clipped instance returns the unclipped instance's weights, shortened when (and only when) |J^T w| > max_norm
+            npn = float(torch.linalg.norm(wp @ J))
+            expw = wp if npn <= max_norm else wp * (max_norm / npn)
+            if float((w - expw).abs().max()) > 1e-9 * max(float(expw.abs().max()), 1e-300):
+                ctx.violation(f"with max_norm={max_norm} call #{ci} returns {w.tolist()}; clipping the weights of an instance without "
+                              f"clipping ({wp.tolist()}, |J^T w| = {npn:.6g}) gives {expw.tolist()}", {**rp, "call": ci})
+                return False
             # rescaling only changes the length
             cr = float(torch.linalg.norm(w * float(wp.norm()) - wp * float(w.norm())))
             if cr > 1e-7 * max(float(wp.norm()) * float(w.norm()), 1e-300):
